@@ -144,6 +144,7 @@ def generate(R, tier):
             "rng": {"kind": R.choice(["Generator", "RandomState"]), "seed": R.randrange(1 << 30),
                     "script": ([] if R.random() < 0.6 else [{"method": "shuffle", "mode": R.choice(["identity", "reverse", "rotate"])}])},
             "ndset": {"wt": R.choice([1.0, 1.0, -1.0, 0.5, -2.0]), "kind": R.choice(["negsum", "negsum", "column", "spread"]), "col": R.randint(0, 2)},
+            "mo_wt": [R.choice([1.0, 1.0, -1.0, 2.5, 0.5]) for _ in range(8)],
             "perm": R.randrange(1 << 30), "ngen": R.randint(1, 3), "pop": R.choice([6, 8]), "unique_parents": R.random() < 0.7}
 
 
@@ -210,7 +211,8 @@ def _protocol(sc, g, ntr):
         nlat = 0                      # latent vector also carries one entry per family: single objective only
     if sc["mo"] and nlat >= 2:
         nd = sc.get("ndset") or {"wt": 1.0, "kind": "negsum", "col": 0}
-        kw.update(nobj=nlat, obj_wt=numpy.ones(nlat), ndset_wt=nd["wt"], ndset_trans=_ndset, ndset_trans_kwargs={"kind": nd["kind"], "col": nd["col"]}, moalgo=MO[enc](ngen=sc["ngen"], pop_size=sc["pop"]))
+        ow = numpy.array((sc.get("mo_wt") or [1.0] * 8)[:nlat], dtype=float)
+        kw.update(nobj=nlat, obj_wt=ow, ndset_wt=nd["wt"], ndset_trans=_ndset, ndset_trans_kwargs={"kind": nd["kind"], "col": nd["col"]}, moalgo=MO[enc](ngen=sc["ngen"], pop_size=sc["pop"]))
         mo = True
     else:
         algo = SortingSubsetOptimizationAlgorithm() if (enc == "subset" and sc["exact"]) else SO[enc](ngen=sc["ngen"], pop_size=sc["pop"])
@@ -386,6 +388,8 @@ def execute(sc):
             score = nd["wt"] * _ndset(numpy.asarray(ms.soln_obj), kind=nd["kind"], col=nd["col"])
             if nd["wt"] != 1.0 or nd["kind"] != "negsum":
                 faults["declared_preference_varied"] = 1
+            if any(w != 1.0 for w in (sc.get("mo_wt") or [1.0])[:numpy.asarray(ms.soln_obj).shape[1]]):
+                faults["objective_weights_varied"] = 1
             best = numpy.flatnonzero(score == score.max())
             ok = any(numpy.array_equal(numpy.asarray(ms.soln_decn[i]), decn) for i in best.tolist())
             if not ok:
